@@ -8,7 +8,9 @@ Tie     : every call is re-evaluated by the Coq model Model/C13_CMAexec.v inside
           from the attributes read before the call, numpy's eigh value and the recorded normal draws.
 """
 import copy
+import json
 import math
+import os
 
 import numpy
 
@@ -218,13 +220,18 @@ def main(run):
     fits = {}
 
     def indcls(weights, array):
-        key = (tuple(weights), array)
+        """array: False/'list' -> list individuals, True/'ndarray' -> numpy.ndarray, 'array' -> array.array('d')"""
+        kind = {False: "list", True: "ndarray"}.get(array, array)
+        key = (tuple(weights), kind)
         if key not in fits:
             fname = "C13Fit%d" % len(fits)
             iname = "C13Ind%d" % len(fits)
             creator.create(fname, base.Fitness, weights=tuple(weights))
-            if array:
+            if kind == "ndarray":
                 creator.create(iname, numpy.ndarray, fitness=getattr(creator, fname))
+            elif kind == "array":
+                import array as _array
+                creator.create(iname, _array.array, typecode="d", fitness=getattr(creator, fname))
             else:
                 creator.create(iname, list, fitness=getattr(creator, fname))
             fits[key] = getattr(creator, iname)
@@ -233,7 +240,8 @@ def main(run):
     terms = {"params": [], "init": [], "update": [], "gen": []}
     cases = {"params": [], "init": [], "update": [], "gen": []}
     stats = {"hsig0": 0, "hsig1": 0, "ties": 0, "order_checked": 0, "coq_updates": 0, "oracle_only_updates": 0,
-             "near_threshold": 0, "max_cond": 0.0, "rejected_forgetting_rates": 0}
+             "near_threshold": 0, "max_cond": 0.0, "rejected_forgetting_rates": 0, "min_rate_product": float("inf"),
+             "corpus_runs": 0, "slow_rate_runs": 0}
 
     def impl(fn, what, case):
         """Call implementation code; an exception is a concrete failing input of its own."""
@@ -265,18 +273,30 @@ def main(run):
                                      case, observed={k: P[k], "expected": sp[k]})
         return P
 
+    def logu(lo, hi):
+        return math.exp(rng.uniform(math.log(lo), math.log(hi)))
+
     def rand_user(kw, p=0.5):
+        """user-supplied learning rates: log-uniform from 1e-5 up to (and for ccovmu beyond) the clamp"""
         if rng.random() < p:
-            kw["cs"] = rng.uniform(0.05, 0.95)
+            kw["cs"] = logu(1e-5, 0.95)
         if rng.random() < p:
-            kw["ccum"] = rng.uniform(0.05, 0.95)
+            kw["ccum"] = logu(1e-5, 1.0)
         if rng.random() < p:
-            kw["ccov1"] = rng.uniform(0.001, 0.5)
+            kw["ccov1"] = logu(1e-5, 0.5)
         if rng.random() < p:
-            kw["ccovmu"] = rng.uniform(0.0, 1.2)      # above 1 - ccov1 sometimes: the min() clamp
+            kw["ccovmu"] = logu(1e-5, 1.2)            # above 1 - ccov1 sometimes: the min() clamp
         if rng.random() < p:
-            kw["damps"] = rng.uniform(0.5, 5.0)
+            kw["damps"] = logu(0.05, 20.0)
+        if "cs" in kw and "damps" in kw and kw["cs"] / kw["damps"] > 5.0:
+            kw["damps"] = kw["cs"] / 5.0              # keeps sigma * exp(..) far from float overflow
         return kw
+
+    def slow_rates(dim, product):
+        """ccov1, ccovmu with (ccov1 + ccovmu) * dim * 10 == product, split log-uniformly"""
+        total = product / (dim * 10.0)
+        u = rng.choice([0.5, logu(1e-3, 0.999), 1.0 - logu(1e-3, 0.5)])
+        return {"ccov1": total * u, "ccovmu": total * (1.0 - u)}
 
     def params_case(dim, lam, kw):
         case = {"kind": "params", "dim": dim, "lambda_": lam, "kargs": dict(kw)}
@@ -380,6 +400,11 @@ def main(run):
         else:
             centroid = [rng.uniform(-5, 5) for _ in range(n)]
         sigma = rng.choice([rng.uniform(0.1, 3.0), 10.0 ** rng.uniform(-3, 1), 1, 0.5])
+        return build_strategy(centroid, sigma, kw, coq)
+
+    def build_strategy(centroid, sigma, kw, coq):
+        n = len(centroid)
+        lam = kw.get("lambda_", int(4 + 3 * math.log(n)))
         case = {"kind": "init", "centroid": centroid, "sigma": sigma, "kargs": jsonable(kw)}
         run.note_case(case, True, sample=None)
         ok, s = impl(lambda: cma.Strategy(centroid, sigma, **kw), "Strategy(...)", case)
@@ -560,31 +585,45 @@ def main(run):
         except Exception:  # noqa
             return False
 
-    def one_run(n, coq, gens):
+    def one_run(n, coq, gens, force_kw=None, fixed=None):
         try:
-            one_run_(n, coq, gens)
+            one_run_(n, coq, gens, force_kw, fixed)
         except Exception as e:  # noqa  (a mutated implementation may leave attributes of unexpected type/shape)
             import traceback
             run.oracle_violation("strategy left in a state the harness cannot read: %s" % type(e).__name__,
                                  {"kind": "run", "dim": n}, observed=traceback.format_exc()[-1500:])
 
-    def one_run_(n, coq, gens):
-        oname, f = rng.choice(OBJECTIVES)
-        nobj = 2 if oname == "two" else 1
-        weights = tuple(rng.choice([-1.0, -1.0, 1.0, -2.0]) for _ in range(nobj))
-        icls = indcls(weights, rng.random() < 0.3)
-        s, kw = new_strategy(n, coq)
+    def one_run_(n, coq, gens, force_kw=None, fixed=None):
+        """fixed: a corpus entry (centroid, sigma, kargs, objective, fitness_weights, array_individuals)"""
+        if fixed is not None:
+            oname = fixed.get("objective", "sphere")
+            f = dict(OBJECTIVES)[oname]
+            weights = tuple(fixed.get("fitness_weights", [-1.0]))
+            icls = indcls(weights, bool(fixed.get("array_individuals", False)))
+            kw = dict(fixed.get("kargs", {}))
+            if "cmatrix" in kw:
+                kw["cmatrix"] = numpy.array(kw["cmatrix"], dtype=float)
+            s, kw = build_strategy(list(fixed["centroid"]), fixed["sigma"], kw, coq)
+        else:
+            oname, f = rng.choice(OBJECTIVES)
+            nobj = 2 if oname == "two" else 1
+            weights = tuple(rng.choice([-1.0, -1.0, 1.0, -2.0]) for _ in range(nobj))
+            icls = indcls(weights, rng.random() < 0.3)
+            s, kw = new_strategy(n, coq, force_kw)
         if s is None or not state_usable(s):
             return
+        stats["min_rate_product"] = min(stats["min_rate_product"], float((s.ccov1 + s.ccovmu) * n * 10))
         for g in range(gens):
             meta = {"objective": oname, "fitness_weights": list(weights), "gen": g, "dim": n}
             pop = do_generate(s, icls, bool(coq and (g < 3 or rng.random() < 0.25)), meta)
             if pop is None:
                 pop = own_samples(s, icls)
             evaluate(pop, f)
-            if rng.random() < 0.1 and s.mu < len(pop):
+            if fixed is None and rng.random() < 0.1 and s.mu < len(pop):
                 # populations larger/smaller than lambda_ are legal as long as len >= mu
                 pop = pop[:rng.randint(s.mu, len(pop))]
+            # every update (not only the last) is checked: published equations, stored decomposition of the
+            # CURRENT C, and -- when coq -- re-evaluated in Coq with B/diagD/BD observed after this very update
             if not do_update(s, pop, coq, meta) or not state_usable(s):
                 return
 
@@ -596,6 +635,31 @@ def main(run):
             return rng.randint(6, 20)
         return rng.randint(21, 50)
 
+    # corpus first: minimised past misses (corpus/C13_*.json)
+    cdir = os.path.join(os.path.dirname(os.path.dirname(os.path.abspath(__file__))), "corpus")
+    for fn in sorted(os.listdir(cdir)) if os.path.isdir(cdir) else []:
+        if fn.startswith("C13_") and fn.endswith(".json"):
+            entry = json.load(open(os.path.join(cdir, fn)))
+            for fixed in entry.get("runs", []):
+                n = len(fixed["centroid"])
+                one_run(n, n <= 8, int(fixed.get("generations", 4)), fixed=fixed)
+                stats["corpus_runs"] += 1
+
+    # systematic user-supplied slow/fast covariance learning rates: (ccov1 + ccovmu) * dim * 10 on a grid
+    # around 1 (a lazily refreshed eigendecomposition a la Hansen's c-cmaes would skip updates below 1), every
+    # dimension class, every update checked
+    products = [0.01, 0.1, 0.5, 0.99, 1.0, 2.0]
+    slow_dims = run.scale([2, 3, 5, 8, 13, 20], list(range(2, 21)))
+    for n in slow_dims:
+        for prod in products:
+            for _ in range(run.scale(1, 2)):
+                fk = slow_rates(n, prod)
+                if rng.random() < 0.5:
+                    rand_user(fk, 0.5)          # cs / ccum / damps log-uniform as well
+                    fk.update(slow_rates(n, prod))
+                one_run(n, n <= 8, run.scale(3, 6), force_kw=fk)
+                stats["slow_rate_runs"] += 1
+
     for _ in range(run.scale(36, 400)):
         one_run(rng.randint(2, 8), True, gens_draw())
     for n in run.scale([20], [9, 12, 16, 20]):
@@ -604,6 +668,261 @@ def main(run):
         one_run(rng.randint(2, 20), False, gens_draw())        # oracle only: all dimensions
     # a full-length run
     one_run(rng.randint(2, 6), True, 50)
+
+
+    # ================================================================= hardening round (HARDENING.md)
+    ULP = 2.0 ** -52
+
+    def crafted_fitness(pop, nobj):
+        """class 3: +-0.0, 1-ulp neighbours, duplicates, huge and tiny magnitudes (all finite)"""
+        pool = [0.0, -0.0, 1.0, 1.0 + ULP, 1.0 - ULP / 2, 1.0 + 2.0 ** -40, 1e-300, -1e-300, 1e300, -1e300,
+                2.0 ** 53, 2.0 ** 53 + 2.0, 3.0, -3.0, 1e9 + 1e-3, 1e9 - 1e-3, 1e9]
+        mode = rng.random()
+        for ind in pop:
+            if mode < 0.5:
+                ind.fitness.values = tuple(rng.choice(pool) for _ in range(nobj))
+            else:                                         # pairwise distinct near-ties
+                ind.fitness.values = tuple(1.0 + ULP * rng.randint(0, 10 ** 6) for _ in range(nobj))
+
+    def recompute(s, kw, what):
+        """computeParams called again after a reconfiguration; judged like a fresh computeParams"""
+        case = {"kind": "params-recomputed", "what": what, "dim": int(s.dim), "lambda_": int(s.lambda_), "kargs": jsonable(kw)}
+        run.note_case(case)
+        if not impl(lambda: s.computeParams(s.params), "computeParams", case)[0]:
+            return False
+        kwp = {k: v for k, v in kw.items() if k not in ("lambda_", "cmatrix")}
+        P = oracle_params(s, kwp, case, "computeParams after %s" % what)
+        if len(P["weights"]) <= 40:
+            add("params", "CParams %s %s %s %s %s" % (cnat(P["dim"]), cnat(P["lambda_"]), cfloat(P["chiN"]), ckargs(kwp), cparams(P)), case)
+        return True
+
+    def reconfig_run(n, coq, gens):
+        """class 1: one strategy object used in a sequence with every public reconfiguration route in between"""
+        oname, f = rng.choice(OBJECTIVES)
+        nobj = 2 if oname == "two" else 1
+        weights = tuple(rng.choice([-1.0, 1.0, -2.0, 0.5]) for _ in range(nobj))
+        icls = indcls(weights, rng.choice(["list", "ndarray", "array"]))
+        s, kw = new_strategy(n, coq)
+        if s is None or not state_usable(s):
+            return
+        kw = dict(kw)
+        prev_pop = None
+        for g in range(gens):
+            meta = {"objective": oname, "fitness_weights": list(weights), "gen": g, "dim": n, "mode": "reconfigure"}
+            act = rng.choice(["none", "sigma", "centroid", "lambda", "rates", "paths", "double", "stale", "gen2", "scheme"])
+            meta["action"] = act
+            if act == "sigma":
+                v = float(s.sigma) * logu(0.1, 10.0)
+                s.sigma = rng.choice([v, numpy.float64(v), max(1, int(round(v)))])
+            elif act == "centroid":
+                c = [float(x) + rng.uniform(-1, 1) for x in s.centroid]
+                # (an ndarray, as __init__ stores it; a plain list is not a supported value of the attribute)
+                s.centroid = rng.choice([numpy.array(c), numpy.array(c, dtype=numpy.float32).astype(float)])
+            elif act == "lambda":
+                s.lambda_ = max(rng.randint(4, 14 if coq else 30), kw.get("mu", 1))
+                if not recompute(s, kw, "lambda_ changed"):
+                    return
+            elif act == "rates":
+                key = rng.choice(["cs", "ccum", "ccov1", "ccovmu", "damps"])
+                val = {"cs": logu(1e-5, 0.95), "ccum": logu(1e-5, 1.0), "ccov1": logu(1e-5, 0.3),
+                       "ccovmu": logu(1e-5, 0.5), "damps": logu(0.2, 20.0)}[key]
+                s.params[key] = val
+                kw[key] = val
+                if not recompute(s, kw, "params[%s] changed" % key):
+                    return
+            elif act == "scheme":
+                sch = rng.choice(list(SCHEME))
+                s.params["weights"] = sch
+                kw["weights"] = sch
+                if not recompute(s, kw, "weights scheme changed"):
+                    return
+            elif act == "paths":                          # a restart of the paths by the user
+                s.ps = numpy.zeros(n)
+                s.pc = numpy.zeros(n)
+                s.update_count = 0
+            if not state_usable(s) or not (1.0 - float(s.ccov1) - float(s.ccovmu) >= 0.05 or s.mu >= 2 * n):
+                return
+            pop = do_generate(s, icls, bool(coq and rng.random() < 0.3), meta)
+            if pop is None:
+                pop = own_samples(s, icls)
+            if act == "gen2":                             # generate again before any update: independent second sample
+                pop2 = do_generate(s, icls, False, meta)
+                if pop2 is not None:
+                    pop = pop + pop2 if rng.random() < 0.5 else pop2      # also: more than lambda_ individuals
+            if rng.random() < 0.25:
+                crafted_fitness(pop, nobj)
+            else:
+                evaluate(pop, f)
+            if act == "stale" and prev_pop is not None and len(prev_pop) >= s.mu and len(prev_pop[0]) == n:
+                pop, prev_pop = prev_pop, pop             # an older, already sorted population is fed again
+            else:
+                prev_pop = pop
+            if not do_update(s, pop, coq, meta) or not state_usable(s):
+                return
+            if act == "double":                           # the same (now sorted) list object once more
+                if not do_update(s, pop, coq, dict(meta, action="double-second")) or not state_usable(s):
+                    return
+
+    def interleaved_run(coq):
+        """class 1: two strategies (different dimension / rates) used alternately: no state may leak through
+        class attributes or module globals"""
+        na, nb = rng.randint(2, 8), rng.randint(2, 8)
+        sa, _ = new_strategy(na, coq)
+        sb, _ = new_strategy(nb, coq)
+        if sa is None or sb is None:
+            return
+        ia, ib = indcls((-1.0,), False), indcls((1.0,), True)
+        for g in range(run.scale(3, 6)):
+            for (s, icls, f, n) in ((sa, ia, f_sphere, na), (sb, ib, lambda x: (-f_elli(x)[0],), nb)):
+                if not state_usable(s):
+                    return
+                meta = {"objective": "interleaved", "gen": g, "dim": n, "mode": "interleaved"}
+                pop = do_generate(s, icls, False, meta) or own_samples(s, icls)
+                evaluate(pop, f)
+                if not do_update(s, pop, coq, meta):
+                    return
+
+    def aliasing_run(n, coq):
+        """class 2: the same individual object twice, the same list for two strategies, the user's cmatrix array
+        reused after the first strategy has been updated"""
+        cm = rand_spd(n)
+        cm_snapshot = cm.copy()
+        kw = {"cmatrix": cm, "lambda_": rng.randint(4, 10), "weights": rng.choice(list(SCHEME))}
+        centroid = [rng.uniform(-3, 3) for _ in range(n)]
+        s, kw = build_strategy(centroid, rng.uniform(0.2, 2.0), kw, coq)
+        if s is None or not state_usable(s):
+            return
+        icls = indcls((-1.0,), rng.choice(["list", "ndarray"]))
+        meta = {"objective": "sphere", "gen": 0, "dim": n, "mode": "aliasing"}
+        twin = copy.deepcopy(s)
+        pop = do_generate(s, icls, False, meta) or own_samples(s, icls)
+        evaluate(pop, f_rosen)
+        pop.append(pop[rng.randrange(len(pop))])          # the same object twice (a tie with itself)
+        if not do_update(s, pop, coq, meta):
+            return
+        # the same list object (sorted in place by the first call) given to an identical second strategy
+        S1 = read_state(s)
+        if impl(lambda: twin.update(pop), "update (same list, second strategy)", meta)[0]:
+            S2 = read_state(twin)
+            if any(not numpy.array_equal(numpy.asarray(S1[k]), numpy.asarray(S2[k])) for k in STATE_KEYS):
+                run.oracle_violation("two identical strategies updated with the same population list reach different states",
+                                     dict(meta, kind="update-shared-list"), observed={"first": jsonable(S1), "second": jsonable(S2)})
+        for g in range(1, 3):
+            if not state_usable(s):
+                return
+            meta = dict(meta, gen=g)
+            pop = do_generate(s, icls, False, meta) or own_samples(s, icls)
+            evaluate(pop, f_rosen)
+            if not do_update(s, pop, coq, meta):
+                return
+        # the array the user passed as cmatrix and still holds
+        if not numpy.array_equal(cm, cm_snapshot):
+            run.oracle_violation("updates modified the cmatrix array passed by the user (a second strategy built from it "
+                                 "would not start from the covariance the user supplied)", dict(meta, kind="cmatrix-aliased"),
+                                 observed={"now": cm.tolist(), "passed": cm_snapshot.tolist()})
+        s3, _ = build_strategy(centroid, 1.0, {"cmatrix": cm, "lambda_": kw["lambda_"]}, False)
+        if s3 is not None and not close_arr(read_state(s3)["C"], cm_snapshot):
+            run.oracle_violation("a strategy built from the user's cmatrix array does not start from the supplied covariance",
+                                 dict(meta, kind="cmatrix-aliased"))
+
+    def scaled_run(n, coq, scale, offset):
+        """class 3: the whole problem scaled (1e-9 .. 1e6) or shifted (|m| up to 1e3 with sigma >= 1e-2)"""
+        kw = {"weights": rng.choice(list(SCHEME)), "lambda_": rng.randint(4, 12)}
+        if rng.random() < 0.5:
+            kw["cmatrix"] = rand_spd(n)
+        dt = rng.choice([float, numpy.float32, numpy.int64]) if scale == 1.0 else float
+        centroid = numpy.array([offset + scale * rng.uniform(-5, 5) for _ in range(n)])
+        centroid = numpy.round(centroid).astype(dt) if dt is numpy.int64 else centroid.astype(dt)
+        sigma = scale * rng.uniform(0.1, 3.0) if offset == 0 else rng.uniform(1e-2, 1.0)
+        s, kw = build_strategy(centroid, sigma, kw, coq)
+        if s is None or not state_usable(s):
+            return
+        icls = indcls((rng.choice([-1.0, 2.0]),), rng.choice(["list", "ndarray", "array"]))
+        for g in range(run.scale(2, 5)):
+            meta = {"objective": "scaled-sphere", "gen": g, "dim": n, "mode": "scaled", "scale": scale, "offset": offset}
+            pop = do_generate(s, icls, bool(coq and g == 0), meta) or own_samples(s, icls)
+            evaluate(pop, lambda x: (float(sum(((v - offset) / scale) ** 2 for v in x)),))
+            if not do_update(s, pop, coq, meta) or not state_usable(s):
+                return
+
+    def boundary_run(n, coq, kwb, popsize):
+        """class 5: mu = 1, mu = lambda_, population of exactly mu individuals, extreme admissible rates"""
+        s, kw = build_strategy([rng.uniform(-2, 2) for _ in range(n)], rng.uniform(0.3, 2.0), dict(kwb), coq)
+        if s is None or not state_usable(s) or not (1.0 - float(s.ccov1) - float(s.ccovmu) >= 0.05 or s.mu >= 2 * n):
+            return
+        icls = indcls((-1.0,), False)
+        for g in range(run.scale(2, 4)):
+            meta = {"objective": "rastrigin", "gen": g, "dim": n, "mode": "boundary", "popsize": popsize}
+            pop = do_generate(s, icls, bool(coq and g == 0), meta) or own_samples(s, icls)
+            evaluate(pop, f_rastrigin)
+            if popsize == "mu":
+                pop = pop[:s.mu]
+            if not do_update(s, pop, coq, meta) or not state_usable(s):
+                return
+
+    def guard(fn, *a):
+        try:
+            fn(*a)
+        except Exception as e:  # noqa
+            import traceback
+            run.oracle_violation("strategy left in a state the harness cannot read: %s" % type(e).__name__,
+                                 {"kind": fn.__name__}, observed=traceback.format_exc()[-1500:])
+
+    for _ in range(run.scale(14, 120)):
+        guard(reconfig_run, rng.randint(2, 8), True, rng.randint(4, 10))
+    for _ in range(run.scale(4, 40)):
+        guard(reconfig_run, rng.randint(9, 20), False, rng.randint(4, 10))
+    for _ in range(run.scale(4, 40)):
+        guard(interleaved_run, True)
+    for _ in range(run.scale(6, 60)):
+        guard(aliasing_run, rng.randint(2, 8), True)
+    for scale, offset in [(1e-9, 0.0), (1e-6, 0.0), (1e3, 0.0), (1e6, 0.0), (1.0, 1e3), (1.0, -1e3), (1.0, 0.0), (1.0, 0.0)]:
+        for _ in range(run.scale(1, 6)):
+            guard(scaled_run, rng.randint(2, 8), True, scale, offset)
+    for n in run.scale([2, 5, 20], [2, 3, 5, 8, 12, 20]):
+        lam = rng.randint(4, 10)
+        for kwb, popsize in [({"lambda_": lam, "mu": 1}, "lambda"), ({"lambda_": lam, "mu": lam}, "lambda"),
+                             ({"lambda_": lam, "mu": max(1, lam // 2)}, "mu"), ({"lambda_": 4}, "lambda"),
+                             ({"lambda_": lam, "cs": 1.0, "ccum": 1.0}, "lambda"),
+                             ({"lambda_": lam, "ccov1": 0.0, "ccovmu": 0.0}, "lambda"),
+                             ({"lambda_": n + 4, "mu": n + 2, "weights": "equal"}, "lambda")]:
+            guard(boundary_run, n, n <= 8, kwb, popsize)
+    # class 5, parameters only: the exact clamp / max(0, .) boundaries of computeParams
+    for dim in run.scale([2, 7, 20], list(range(2, 21))):
+        for kwb in [{"mu": dim + 2, "weights": "equal"},                 # sqrt((mueff-1)/(N+1)) - 1 == 0 exactly
+                    {"mu": dim + 3, "weights": "equal"}, {"mu": dim + 1, "weights": "equal"},
+                    {"ccov1": 0.25, "ccovmu": 0.75}, {"ccov1": 0.25, "ccovmu": 0.75 + 2.0 ** -50},
+                    {"ccov1": 0.25, "ccovmu": 0.75 - 2.0 ** -50}, {"ccov1": 0.0, "ccovmu": 1.0}, {"ccov1": 1.0, "ccovmu": 0.5},
+                    {"cs": 1.0}, {"ccum": 1.0}, {"cs": 1e-5, "damps": 1e-3}, {"mu": 1}, {"mu": 1, "weights": "linear"}]:
+            params_case(dim, max(4, kwb.get("mu", 0), rng.randint(4, 12)), dict(kwb))
+    # class 4: generate with every kind of initialiser (class, builtin, function, partial)
+    import functools
+    for _ in range(run.scale(6, 40)):
+        n = rng.randint(2, 8)
+        s, kw = new_strategy(n, False)
+        if s is None or not state_usable(s):
+            continue
+        for init in (list, tuple, numpy.array, lambda a: [float(v) for v in a], functools.partial(numpy.array, dtype=float)):
+            seed = rng.randrange(2 ** 31)
+            case = {"kind": "generate-init", "dim": n, "init": getattr(init, "__name__", repr(init)), "seed": seed}
+            run.note_case(case)
+            numpy.random.seed(seed)
+            ok, pop = impl(lambda: s.generate(init), "generate", case)
+            if not ok:
+                continue
+            numpy.random.seed(seed)
+            arz = numpy.random.standard_normal((int(s.lambda_), n))
+            S = read_state(s)
+            exp_ = S["centroid"] + S["sigma"] * (arz @ S["BD"].T)
+            try:
+                good = (len(pop) == int(s.lambda_) and all(len(x) == n for x in pop) and
+                        all(type(x) is type(init(numpy.zeros(n))) for x in pop) and
+                        close_arr([[float(v) for v in x] for x in pop], exp_))
+            except Exception:  # noqa
+                good = False
+            if not good:
+                run.oracle_violation("generate does not return lambda individuals built with the given initialiser around the centroid",
+                                     case)
 
     # synthetic pre-states: random paths / generation counter, both h_sigma branches
     for _ in range(run.scale(120, 1500)):
